@@ -245,10 +245,10 @@ def run(ctx):
                 {"name": "b", "clauses": [{"k": "go_re", "n": n, "far": "a"}]},
             ]})
     ctx.extra["grid_cases"] = len(cases)
-    for i in range(ctx.pick(400, 6000)):
+    for i in range(ctx.pick(400, 40000)):
         cases.append(gen_random(ctx.rng, ctx.rng.choice(TICKS)))
     n = 16
-    ctx.shard([{"cases": cases[i::n]} for i in range(n)], timeout=ctx.pick(200, 900))
+    ctx.shard([{"cases": cases[i::n]} for i in range(n)], timeout=ctx.pick(200, 1500))
     ctx.floor("clock_evaluations", 3000)
     ctx.floor("fired_timeout", 100)
     ctx.floor("fired_repeat", 100)
